@@ -359,6 +359,24 @@ func relName(f *ssa.Function) string {
 		if full, moved := movedFull[ro.Origin()]; moved {
 			return full + strings.TrimPrefix(origin(f).String(), root.String())
 		}
+		// renamed type parameters (`[F, T]` -> `[From, To]`): the recorded rendering, which the reviewed tables are
+		// keyed by, differs from the current one only inside the brackets
+		if sig, ok := ro.Type().(*types.Signature); ok && ro.Pkg() != nil && (sig.RecvTypeParams().Len() > 0 || sig.TypeParams().Len() > 0) {
+			key := funcObjName(ro)
+			if r := recvNameOf(sig); r != "" {
+				key = r + "." + key
+			}
+			if full := recordedFull[relOfPkg(ro.Pkg())+"|"+key]; full != "" {
+				cur := root.String()
+				cur = strings.ReplaceAll(cur, modPath+"/", "")
+				cur = strings.ReplaceAll(cur, modPath+".", "dials.")
+				cur = strings.ReplaceAll(cur, modPath, "dials")
+				cur = unrename(cur, ro)
+				if cur != full && stripBrackets(cur) == stripBrackets(full) {
+					return full + strings.TrimPrefix(origin(f).String(), root.String())
+				}
+			}
+		}
 		// a method whose receiver changed between pointer and value keeps its recorded rendering
 		if sig, ok := ro.Type().(*types.Signature); ok && sig.Recv() != nil && ro.Pkg() != nil {
 			key := funcObjName(ro)
@@ -418,4 +436,23 @@ func (w *World) funcValueEscapes(f *ssa.Function) bool {
 		}
 	}
 	return false
+}
+
+// stripBrackets removes every [...] segment (type parameter / argument lists) from a rendered function name.
+func stripBrackets(s string) string {
+	var b strings.Builder
+	depth := 0
+	for _, r := range s {
+		switch {
+		case r == '[':
+			depth++
+		case r == ']':
+			if depth > 0 {
+				depth--
+			}
+		case depth == 0:
+			b.WriteRune(r)
+		}
+	}
+	return b.String()
 }
